@@ -1,5 +1,6 @@
 pub mod crash;
 pub mod repl;
+pub mod rights;
 
 use crate::driver::PropSpec;
 use crate::kit::RunReport;
@@ -9,6 +10,7 @@ pub fn generate(engine: &str, prop: &str, seed: u64, thorough: bool) -> Trace {
     match engine {
         "repl" => repl::generate(seed, prop, thorough),
         "crash" => crash::generate(seed, prop, thorough),
+        "rights" => rights::generate(seed, prop, thorough),
         _ => panic!("unknown engine {engine}"),
     }
 }
@@ -17,6 +19,7 @@ pub fn directed(engine: &str, prop: &str) -> Vec<Trace> {
     match engine {
         "repl" => repl::directed(prop),
         "crash" => crash::directed(prop),
+        "rights" => rights::directed(prop),
         _ => vec![],
     }
 }
@@ -25,6 +28,7 @@ pub fn execute(trace: &Trace, keep_log: bool) -> (RunReport, Vec<String>) {
     match trace.engine.as_str() {
         "repl" => repl::execute(trace, keep_log),
         "crash" => crash::execute(trace, keep_log),
+        "rights" => rights::execute(trace, keep_log),
         e => panic!("unknown engine {e}"),
     }
 }
@@ -115,6 +119,40 @@ pub fn specs() -> Vec<PropSpec> {
             level: "exploration",
             rule: "one node, subscriber subscribed before the run and drained at every settle; the same workloads as C13 without faults, with transaction boundaries chosen through the batch gate (several changes, room mutations, streams and recomputation passes in one transaction); at the end every acknowledged change must be covered by a DataChanged (room, entity, day) / RoomModified event; distinct = distinct schedule signature",
             assumptions: &["no requirement on which event or how many; ingestion events are checked in the repl engine"],
+            real: repl_real,
+            stub: STUB_NET,
+        },
+        PropSpec {
+            id: "C01",
+            engine: "rights",
+            budget_s: (50, 600),
+            level: "exploration",
+            rule: "2-4 identities (one real node each) and 1-2 rooms whose definitions evolve (admins, groups, users, user admins, per-entity and wildcard rights, enabled/disabled, replaced over time); every operation shape issued by any identity; fault-free barrier synchronisation after every accepted change so foreign rows exist locally; each API verdict is compared with an independent rights model evaluated at the operation's date and a refused operation must leave the whole database unchanged; distinct = distinct schedule signature (operation shapes, actors, expected and obtained verdicts)",
+            assumptions: &[
+                "rights model written from the statements of C01/C07/C10: last entry not later than the date; wildcard fallback; a right is granted through any group the key belongs to as enabled user or user admin; a room admin may use any group's rights; all-rows implies own-rows",
+                "a room creator always lists itself as admin (the statement is silent on other creations)",
+                "clock skew between identities is at most a few ms and room-definition steps are >= 20 ms apart, so entry dates are monotone (append-only histories)",
+            ],
+            real: repl_real,
+            stub: STUB_NET,
+        },
+        PropSpec {
+            id: "C10",
+            engine: "rights",
+            budget_s: (50, 600),
+            level: "exploration",
+            rule: "as C01 with room-definition steps, restarts and decision-grid barriers weighted up; at each barrier the in-memory room of every node (live on the mutating node, imported on the others, reloaded after restart) is questioned over {identities} x {entities, unknown entity} x {every entry date +-1 ms} x {admin, member, own-rows, all-rows} and compared with the rights model; every restart must succeed",
+            assumptions: &["same rights model as C01"],
+            real: repl_real,
+            stub: STUB_NET,
+        },
+        PropSpec {
+            id: "C12",
+            engine: "rights",
+            budget_s: (50, 600),
+            level: "exploration",
+            rule: "as C01; after every locally accepted data operation all peers (holding the same room definitions) pull until quiet and must store exactly the same rows, references and deletion records; a creation refused locally for lack of right is signed with the refused author's key and offered to a peer through the real ingestion entry point, which must refuse it",
+            assumptions: &["the two implementations are each other's oracle; the rights model only labels the report"],
             real: repl_real,
             stub: STUB_NET,
         },
